@@ -424,6 +424,7 @@ func init() {
 	Properties["C20"] = &PropertySpec{
 		Modules: []string{"bigtable", "storage"},
 		Rules: []Rule{
+			R74(),
 			R73(),
 			R72(),
 			R70(),
